@@ -79,6 +79,9 @@ static double relerr(double got, ld want) { ld d = fabsl((ld)got - want), s = fa
 static void sweep_mt_products(vh_ctx *c, size_t rows, size_t t)
 {
   int rep = !vh_is_tsan(), which;
+  /* detected processor counts far above the 1..24 of the exhaustive sweep (third seeded wave): every fifth pair also runs with 33, 48, 64 or 97
+     reported processors - "any detected thread count, including counts larger than the number of rows" */
+  if (rows >= 1 && t <= 24 && (rows * 31 + t) % 5 == 0) { static const size_t BIG[4] = { 33, 48, 64, 97 }; size_t tb = BIG[(rows + t) & 3]; if (!vh_is_tsan() || rows <= 8) { vh_obs("sweep_mt_products_with_many_processors", 1); sweep_mt_products(c, rows, tb); } }
   for (which = 0; which < 2; which++) {
     const char *fn = which == 0 ? "MT_MatrixDVectorDotProduct" : "MT_DVectorMatrixDotProduct";
     size_t inner = (size_t)vh_int(c, 1, 6), i, j;
